@@ -639,7 +639,7 @@ def run(ctx) -> Result:
         "objective dimension is constant within a history",
     ]
     rng = ctx.rng
-    n = 20000 if ctx.thorough else 4000
+    n = 100000 if ctx.thorough else 4000
     corpus = load_corpus()
     check_cases(res, corpus, True)
     res.count("corpus", len(corpus))
